@@ -418,6 +418,7 @@ type rdbHooks struct {
 	MaxReq    int                                              // give up (Runaway) after this many target requests (0 = 300000)
 	Preempt   *preemptCtl                                      // preemption plan (builds with the yield transform): armed while Send runs, settle() replaces synctest.Wait()
 	NoPark    bool                                             // the target answers every request at once (it keeps up with the parser) instead of being stepped at quiescence
+	OutputCfg func(oc RedisOutputConfig) RedisOutputConfig     // last word on the output configuration (C10: arbitrary filter / database mapping)
 }
 
 type rdbOutcome struct {
@@ -483,7 +484,11 @@ func rdbRun(scn rdbScenario, built *rdbBuilt, ch *mc.Chooser, hooks *rdbHooks) *
 	srv.PlanRef().Park = hooks == nil || !hooks.NoPark
 
 	out := &rdbOutcome{Srv: srv, StartMs: time.Now().UnixMilli()}
-	ro := NewRedisOutput(scn.outputConfig())
+	oc := scn.outputConfig()
+	if hooks != nil && hooks.OutputCfg != nil {
+		oc = hooks.OutputCfg(oc)
+	}
+	ro := NewRedisOutput(oc)
 	out.Output = ro
 	g := newGate()
 	if hooks != nil && hooks.Feed != nil {
